@@ -172,14 +172,19 @@ pub fn roll_case_strategy(profile: Profile) -> BoxedStrategy<LogCase> {
         // in roll-over scenarios a compaction pointer is placed within the last 3000 entries (see logl2)
         2 => any::<u16>().prop_map(|at| LogOp::CompactPointer { at }),
     ];
-    // optional prefix: some thousand entries and a compaction pointer inside the file that is going to be filled
+    // optional prefix: some thousand entries and a compaction pointer inside the file that is going to be filled; such a
+    // case continues behind the fill with appends that cross the switch and a second compaction pointer near the end
     let prefix = prop_oneof![
-        1 => Just(vec![]),
-        1 => (300u16..6000, any::<u16>()).prop_map(|(n, at)| vec![LogOp::AppendMany { n, size: SizeClass::Small(70), batch: true }, LogOp::CompactPointer { at }]),
+        1 => Just((vec![], vec![])),
+        1 => (300u16..6000, any::<u16>(), 1u16..600, any::<bool>(), any::<u16>()).prop_map(|(n, at, cross, batch, at2)| (
+            vec![LogOp::AppendMany { n, size: SizeClass::Small(70), batch: true }, LogOp::CompactPointer { at }],
+            vec![LogOp::AppendMany { n: 400 + cross, size: SizeClass::Small(50), batch }, LogOp::CompactPointer { at: at2 }],
+        )),
     ];
     (any::<bool>(), prop_oneof![3 => 0u16..6, 3 => 6u16..140, 2 => 140u16..400], prefix, prop::collection::vec(op, 4..14))
-        .prop_map(|(big, stop, mut prefix, ops)| {
+        .prop_map(|(big, stop, (mut prefix, after), ops)| {
             prefix.push(LogOp::FillToRollover { big, stop });
+            prefix.extend(after);
             prefix.extend(ops);
             LogCase { start_index: 1, pre_term: 0, ops: prefix }
         })
